@@ -20,6 +20,8 @@ type Env struct {
 	inOld   bool
 	depth   int
 	prev    *Env // loop-iteration start (state and variable values at the loop header)
+	loop    *loopInfo // the loop whose invariant is being evaluated (nil outside invariants)
+	head    *Env      // start of the current iteration of the innermost enclosing loop
 }
 
 func (e *Env) fail(format string, args ...interface{}) {
@@ -88,6 +90,10 @@ func (e *Env) lookupType(name string) types.Type {
 		return types.Typ[types.String]
 	case "int32":
 		return types.Typ[types.Int32]
+	case "float64":
+		return types.Typ[types.Float64]
+	case "float32":
+		return types.Typ[types.Float32]
 	}
 	if strings.HasPrefix(name, "[]") {
 		t := e.lookupType(name[2:])
@@ -215,6 +221,28 @@ func (e *Env) shifted(x *SExpr) *Env {
 			ne.vars[k] = v
 		}
 		return ne
+	}
+	if x.Name == "head" {
+		if e.head == nil {
+			// outside any loop: the start of the function
+			if e.old == nil {
+				e.fail("head() not available here")
+				return nil
+			}
+			n := *e
+			n.st = e.old
+			n.inOld = true
+			return &n
+		}
+		n := *e.head
+		n.vars = map[string]Val{}
+		for k, v := range e.head.vars {
+			n.vars[k] = v
+		}
+		for k, v := range e.vars {
+			n.vars[k] = v
+		}
+		return &n
 	}
 	if x.Name == "prev" {
 		if e.prev == nil {
@@ -515,6 +543,17 @@ func (e *Env) binary(x *SExpr) Val {
 
 func (e *Env) quant(x *SExpr) Val {
 	vc := e.a.vc
+	if x.Name == "forallasg" {
+		nm := vc.fresh("qasg_" + x.Vars[0])
+		n := e.with(x.Vars[0], Val{Sort: SortAsg, Term: nm})
+		vc.inQuant++
+		body := n.evalBool(x.Args[0])
+		vc.inQuant--
+		if vc.inQuant == 0 {
+			body = addPatterns(body)
+		}
+		return boolVal(fmt.Sprintf("(forall ((%s %s)) (! (=> (asgmark %s) %s) :pattern ((asgmark %s))))", nm, SortAsg, nm, body, nm))
+	}
 	n := e
 	var names []string
 	for _, v := range x.Vars {
@@ -617,6 +656,13 @@ func (e *Env) call(x *SExpr) Val {
 		case "grown":
 			// the slice still uses the backing array it had on entry, or one allocated since
 			v := e.eval(x.Args[0])
+			if e.loop != nil && e.loop.stEntry != nil {
+				// inside a loop invariant: same backing array as on loop entry, or allocated during the loop
+				ne := e.a.headerEnv(e.loop, e.loop.entryPhis, e.loop.stEntry)
+				ne.loop = nil
+				ov := ne.eval(x.Args[0])
+				return boolVal(or(app("=", sArr(v.Term), sArr(ov.Term)), app(">", sArr(v.Term), e.loop.allocLE)))
+			}
 			n := e.shifted(&SExpr{Kind: SOld, Name: "old"})
 			if n == nil {
 				return boolVal("true")
@@ -630,6 +676,18 @@ func (e *Env) call(x *SExpr) Val {
 				t = sArr(v.Term)
 			}
 			return boolVal(app("<=", t, e.a.alloc(e.st)))
+		case "curalloc":
+			return intVal(e.a.alloc(e.st))
+		case "nsent", "sendalloc":
+			v := e.eval(x.Args[0])
+			comp := "ghost:chan.nsent"
+			if x.Name == "sendalloc" {
+				comp = "ghost:chan.salloc"
+			}
+			return intVal(sel(vc.comp(e.st.mem, comp, arrSort(SortInt)), v.Term))
+		case "lastsent":
+			v := e.eval(x.Args[0])
+			return e.a.lastSent(e.st, v)
 		case "closed":
 			v := e.eval(x.Args[0])
 			return boolVal(sel(vc.comp(e.st.mem, "ghost:chan.closed", arrSort(SortBool)), v.Term))
